@@ -467,7 +467,9 @@ where
             let this = self.as_mut().project();
             (
                 this.flags.contains(Flags::DRAINING),
+                // with queued requests the payload slot belongs to a later request
                 !is_upgrade
+                    && this.messages.is_empty()
                     && should_close_for_unread_payload(
                         this.payload.as_ref(),
                         *this.payload_drainable,
@@ -517,7 +519,9 @@ where
             let this = self.as_mut().project();
             (
                 this.flags.contains(Flags::DRAINING),
+                // with queued requests the payload slot belongs to a later request
                 !is_upgrade
+                    && this.messages.is_empty()
                     && should_close_for_unread_payload(
                         this.payload.as_ref(),
                         *this.payload_drainable,
